@@ -322,10 +322,18 @@ def _explore(out, tier, seed, facts, replay):
         shutil.copy(os.path.join(tmp, "d0_a.dat"), os.path.join(tmp, "looks_like.nc"))
         shutil.copy(os.path.join(tmp, "d0_b.dat"), os.path.join(tmp, "looks_like.txt"))
         nf += 2
-        if not isinstance(verif.input.get_input(os.path.join(tmp, "looks_like.nc")), verif.input.Text):
-            out.violation("detection", "a text file named *.nc is not read as text", {})
-        if not isinstance(verif.input.get_input(os.path.join(tmp, "looks_like.txt")), verif.input.Netcdf):
-            out.violation("detection", "a NetCDF file named *.txt is not read as NetCDF", {})
+        for nm_, kind_, cls_ in (("looks_like.nc", "text", verif.input.Text), ("looks_like.txt", "NetCDF", verif.input.Netcdf)):
+            for ext2 in ("", ".csv" if kind_ == "NetCDF" else ".nc4"):
+                path_ = os.path.join(tmp, nm_ + ext2)
+                if ext2:
+                    shutil.copy(os.path.join(tmp, nm_), path_)
+                try:
+                    got_cls = type(verif.input.get_input(path_)).__name__
+                except BaseException as e:
+                    got_cls = "exception %s: %s" % (type(e).__name__, str(e)[:80])
+                if got_cls != cls_.__name__:
+                    out.violation("detection:%s" % kind_.lower(), "a %s file named %s is read as %s: the format must be detected from the content, not from the name"
+                                  % (kind_, os.path.basename(path_), got_cls), {"content": kind_, "file_name": os.path.basename(path_)})
     finally:
         shutil.rmtree(tmp, ignore_errors=True)
     disagreements = []
